@@ -434,6 +434,105 @@ func c06(c *core.Ctx) {
 		rI.Check(target == f.Obj.Name(), f.Key, f.Decl.Pos(), "forwards to swamp."+target, "gateway handler "+f.Obj.Name()+" forwards to swamp."+target+" (value is incremented as a different numeric type)")
 	}
 
+	// decisions inside a mutating loop use live lookups
+	rLC := c.Rule("C06.livecheck", "inside a gateway loop that creates, saves or deletes records of a swamp, a branch condition never reads a snapshot taken from that swamp before the loop (existence maps, counts, looked-up records): each iteration's decision sees the effects of the earlier iterations of the same request", 4)
+	{
+		swampT := p.Named(pkgSwamp, "Swamp")
+		isSwampMethod := func(info *types.Info, call *ast.CallExpr) (string, bool) {
+			fo := core.Callee(info, call)
+			if fo == nil {
+				return "", false
+			}
+			sig, _ := fo.Type().(*types.Signature)
+			if sig == nil || sig.Recv() == nil {
+				return "", false
+			}
+			r := core.RecvExpr(call)
+			if r == nil {
+				return "", false
+			}
+			if tv, ok := info.Types[r]; !ok || !types.Identical(tv.Type, swampT) {
+				return "", false
+			}
+			return fo.Name(), true
+		}
+		mutators := map[string]bool{"CreateTreasure": true, "DeleteTreasure": true, "DeleteAllTreasures": true, "CloneAndDeleteFirst": true, "CloneAndDeleteByKeys": true, "CloneAndDeleteExpired": true, "CloneAndDeleteMatchingTreasures": true, "PatchFields": true, "PatchExpired": true}
+		loops := 0
+		for _, f := range p.FuncsIn(pkgGateway) {
+			if f.Decl.Body == nil {
+				continue
+			}
+			info := f.Info()
+			ast.Inspect(f.Decl.Body, func(x ast.Node) bool {
+				var body *ast.BlockStmt
+				switch l := x.(type) {
+				case *ast.RangeStmt:
+					body = l.Body
+				case *ast.ForStmt:
+					body = l.Body
+				default:
+					return true
+				}
+				mutates := false
+				var recvObj types.Object
+				core.Calls(body, true, func(call *ast.CallExpr) {
+					if n, ok := isSwampMethod(info, call); ok && (mutators[n] || strings.HasPrefix(n, "Increment")) {
+						mutates = true
+						recvObj = core.ObjOf(info, core.RecvExpr(call))
+					}
+				})
+				if !mutates {
+					return true
+				}
+				loops++
+				c.Touch(f)
+				stale := ""
+				check := func(cond ast.Expr) {
+					ast.Inspect(cond, func(y ast.Node) bool {
+						id, ok := y.(*ast.Ident)
+						if !ok {
+							return true
+						}
+						v, isVar := info.Uses[id].(*types.Var)
+						if !isVar || v.Pos() >= body.Pos() || v.Pos() < f.Decl.Body.Pos() {
+							return true // declared inside the loop, or not a local
+						}
+						def := localDefMulti(info, f.Decl.Body, v)
+						if def == nil {
+							return true
+						}
+						if call, isCall := core.Unparen(def).(*ast.CallExpr); isCall {
+							if n, okM := isSwampMethod(info, call); okM && !mutators[n] && core.ObjOf(info, core.RecvExpr(call)) == recvObj {
+								stale = v.Name() + " := " + n + "(...)"
+							}
+						}
+						return true
+					})
+				}
+				ast.Inspect(body, func(y ast.Node) bool {
+					switch st := y.(type) {
+					case *ast.IfStmt:
+						check(st.Cond)
+					case *ast.SwitchStmt:
+						if st.Tag != nil {
+							check(st.Tag)
+						}
+					case *ast.CaseClause:
+						for _, e := range st.List {
+							check(e)
+						}
+					}
+					return true
+				})
+				rLC.Check(stale == "", f.Key+":loop@"+core.ExprStr(loopSubject(x)), x.Pos(), "decisions use live lookups", "a branch inside the loop reads the snapshot "+stale+" taken before the loop, while the loop itself changes the swamp: a later item of the same request is decided on the state before the earlier items (e.g. an insert-only Set with a repeated new key overwrites the value it just created)")
+				return true
+			})
+		}
+		if loops == 0 {
+			rLC.Bad(pkgGateway+":mutating-loops", token.NoPos, "no mutating loops found in the gateway")
+		}
+	}
+
 	// auto-destroy tails
 	rA := c.Rule("C06.autodestroy", "every swamp method that removes records through deleteHandler checks for an empty swamp afterwards and then ceases its vigil before Destroy (Destroy waits for all vigils)", 4)
 	for _, f := range p.FuncsIn(pkgSwamp) {
@@ -509,7 +608,7 @@ func c09(c *core.Ctx) {
 	c.Explain = "Static necessary conditions for linearizable per-key writes: guard IDs are never reused (a stale release cannot free a later holder); every mutating record method called from swamp, gateway, chronicler and beacon code receives a guard ID that was acquired on the same record in the same function (or passed in as the function's guard parameter) and is called inside that guard's region; after a call that may release the guard (Save, which releases inside the save function in immediate-write mode) no further guarded mutation with that ID follows; existence/type tests of read-modify-write operations happen after the guard was acquired; get-or-create runs its lookup, in-flight lookup and registration under one mutex."
 	c.NotCovered = []string{"linearizability of real histories", "atomicity across several records", "mutations through interfaces the call graph cannot resolve"}
 
-	rU := c.Rule("C09.idunique", "the guard ID counter is only incremented (see C15.monotonic)", 2)
+	rU := c.Rule("C09.idunique", "the guard ID counter is only incremented (see C15.monotonic)", 1)
 	counter := p.MustField(pkgGuard, "guard", "largestGuardID")
 	for _, f := range p.FuncsIn(pkgGuard) {
 		if f.Decl.Body == nil {
@@ -817,4 +916,17 @@ func c09(c *core.Ctx) {
 		rI.Check(okCreate, f.Key+":recheck-after-tracker-miss", f.Decl.Pos(), "a record is created only after a key-index miss that follows the tracker miss", "CreateTreasure looks at the key index only before the tracker: a first Save that publishes (Add) and untracks (Delete) between the two lookups is missed by both, a second record object is built for the key and the writers' guarded updates no longer serialize (lost update)")
 
 	}
+}
+
+// loopSubject returns the ranged expression of a range loop (or the condition of a for loop).
+func loopSubject(n ast.Node) ast.Expr {
+	switch l := n.(type) {
+	case *ast.RangeStmt:
+		return l.X
+	case *ast.ForStmt:
+		if l.Cond != nil {
+			return l.Cond
+		}
+	}
+	return &ast.Ident{Name: "for"}
 }
